@@ -73,7 +73,7 @@ def r1(ctx: Context) -> None:
             hp = repo.cls("BaseStateBackend").methods.get(call_name(h))
             hparams = hp.params[1:] if hp else []
             kw = _kwargs(h, hparams)
-            rec = kw.get("status_record")
+            rec = kw.get(hparams[1]) if len(hparams) > 1 else None  # (subject, record, requester context) by position
             ok = isinstance(rec, ast.Name) and rec.id in tres
             ctx.add("R1", f"{f.qualname}::history-record-is-transition-result", ok, f.loc(h), "" if ok else f"the record passed to the history is {ast.unparse(rec) if rec is not None else None}, not the value returned by {trans}")
             # same subject
@@ -82,8 +82,8 @@ def r1(ctx: Context) -> None:
             ok = first_h is not None and first_t is not None and ast.unparse(first_h) == ast.unparse(first_t)
             ctx.add("R1", f"{f.qualname}::history-for-the-transitioned-invocation", ok, f.loc(h), "" if ok else f"history is written for {ast.unparse(first_h) if first_h else None}, the transition was on {ast.unparse(first_t) if first_t else None}")
             # the requester context
-            rc = kw.get("runner_context")
-            ok = isinstance(rc, ast.Name) and (rc.id in f.params or rc.id in derived_names(f.node, {"runner_ctx"}) or True)
+            rc = kw.get(hparams[2]) if len(hparams) > 2 else None
+            ok = isinstance(rc, ast.Name)
             if fn == "set_invocation_status":
                 ok = isinstance(rc, ast.Name) and rc.id in f.params
                 # and the same context supplies the runner id of the transition
@@ -160,10 +160,10 @@ def r3_r4(ctx: Context, sites) -> None:
             ok = bool(loops) and isinstance(loops[0].target, ast.Name) and idtxt == f"{loops[0].target.id}.invocation_id" and any(x is ctor[0] for x in ast.walk(loops[0]))
         ctx.add("R3", f"{f.qualname}::entry-id", ok, f.loc(ctor[0]), "" if ok else f"InvocationHistory.invocation_id = {idtxt}")
         sr = kw.get("status_record")
-        ok = isinstance(sr, ast.Name) and sr.id == "status_record" and sr.id in f.params
+        ok = isinstance(sr, ast.Name) and len(f.params) > 2 and sr.id == f.params[2]  # the record parameter (self, subject, record, context)
         ctx.add("R3", f"{f.qualname}::entry-record", ok, f.loc(ctor[0]), "" if ok else f"status_record = {ast.unparse(sr) if sr is not None else None}")
         rc = kw.get("runner_context_id")
-        ok = rc is not None and ast.unparse(rc) == "runner_context.runner_id" and "runner_context" in f.params
+        ok = rc is not None and len(f.params) > 3 and ast.unparse(rc) == f"{f.params[3]}.runner_id"
         ctx.add("R3", f"{f.qualname}::entry-runner", ok, f.loc(ctor[0]), "" if ok else f"runner_context_id = {ast.unparse(rc) if rc is not None else None}")
         # thread target / args
         tk = {k.arg: k.value for k in thr[0].keywords}
